@@ -748,6 +748,7 @@ fn op_kind(op: &Op) -> &'static str {
 }
 
 pub fn run_sequence<T: Name>(ops: &[Op], ty: &str, rep: &mut Report) {
+    crate::report::journal_enter(|| json!({"kind": "ops", "ops": ops, "elem": ty}));
     rep.evaluations += 1;
     let case = || json!({"kind": "ops", "ops": ops, "elem": ty});
     let mut model = MNode::new(0);
